@@ -125,7 +125,7 @@ def run_tlc(module_path, cfg_path, workdir, out_path, workers=8, simulate=None, 
         jopts += " -Dtlc2.tool.queue.IStateQueue=StateDeque"
     cmd = ["java", "-XX:+UseParallelGC", "-Xmx" + heap, "-DTLA-Library=" + SPEC + ":" + os.path.join(SPEC, "mc") + ":" + os.path.join(SPEC, "trace"),
            "-cp", TLA_CP, "tlc2.TLC", "-workers", str(workers), "-metadir", meta, "-cleanup", "-noGenerateSpecTE",
-           "-config", cfg_path]
+           "-maxSetSize", "20000000", "-config", cfg_path]
     if coverage:
         cmd += ["-coverage", "1"]
     if simulate:
